@@ -21,7 +21,9 @@ func readLocalSymbolTable(r Reader, cat Catalog) (SymbolTable, error) {
 			return nil, err
 		}
 		if fieldName == nil || fieldName.Text == nil {
-			return nil, fmt.Errorf("ion: field name is nil")
+			// A field whose name has no known text ($0, an undefined import slot) is
+			// open content like any other unrecognised field.
+			continue
 		}
 
 		switch *fieldName.Text {
@@ -111,7 +113,9 @@ func readImport(r Reader, cat Catalog) (SharedSymbolTable, error) {
 			return nil, err
 		}
 		if fieldName == nil || fieldName.Text == nil {
-			return nil, fmt.Errorf("ion: field name is nil")
+			// A field whose name has no known text ($0, an undefined import slot) is
+			// open content like any other unrecognised field.
+			continue
 		}
 
 		switch *fieldName.Text {
